@@ -37,6 +37,10 @@ PROPS = {
                 release=True, leak_free=True),
     "C03": dict(families=["elem", "range", "clone", "random"], keys=["ev_user", "snap"], cfgs=any_cfg,
                 release=False, leak_free=True),
+    "C04": dict(families=["types"], keys=["out", "ret", "len", "snap", "ev_user"], cfgs=any_cfg, release=False, leak_free=False),
+    "C13": dict(families=["handles", "elem"], keys=["out", "ret", "len", "snap", "ev_user"], cfgs=any_cfg, release=False, leak_free=True),
+    "C17": dict(families=["parts"], keys=["out", "ret", "len", "cap", "snap", "ev_user", "ev_alloc"],
+                cfgs=lambda c: c["be"] in ("heap", "empty"), release=False, leak_free=True),
     "C05": dict(families=["elem", "range", "clone", "capacity", "random"], keys=["out", "ev_backend", "snap", "raw"],
                 cfgs=lambda c: c["be"] in ("reloc", "heap"), release=False, leak_free=True),
     "C06": dict(families=["fuse", "liar"], keys=["out", "ret", "len", "snap", "ev_user"],
@@ -52,8 +56,8 @@ PROPS = {
                 release=True, leak_free=True),
     "C11": dict(families=["elem", "range", "clone", "views"], keys=["out", "ret", "len", "cap", "snap", "ev_alloc"],
                 cfgs=is_stack, release=False, leak_free=True),
-    "C12": dict(families=["views"], keys=["out", "ret", "len", "snap"], cfgs=any_cfg, release=False, leak_free=True),
-    "C14": dict(families=["iter"], keys=["out", "ret"], cfgs=any_cfg, release=False, leak_free=True),
+    "C12": dict(families=["views", "placement"], keys=["out", "ret", "len", "snap"], cfgs=any_cfg, release=False, leak_free=True),
+    "C14": dict(families=["iter", "iter_clone"], keys=["out", "ret"], cfgs=any_cfg, release=False, leak_free=True),
     "C18": dict(families=["capacity", "elem", "range", "clone", "random"], keys=["out", "cap", "ev_alloc"],
                 cfgs=is_heap, release=True, leak_free=True),
 }
@@ -168,6 +172,10 @@ def collect_cases(pid, spec, routing, tier, seed):
                 if not spec["cfgs"](cfg):
                     continue
                 if not gen.build_ok(cfg["be"], cfg["sz"]):
+                    continue
+                # inline stack buffers are only byte-aligned (known finding D7): typed access to an
+                # over-aligned element type there would abort the harness; only the placement probe runs
+                if is_stack(cfg) and cfg["al"] > 8 and fam != "placement":
                     continue
                 if trap == 0 and fam not in ("range", "capacity"):
                     continue
